@@ -228,7 +228,13 @@ fn edges(r: &[(u64, u64)]) -> Vec<u64> {
 }
 
 /// Draw the next operation, biased towards the interesting places of the current state.
-pub fn gen_op(rng: &mut StdRng, u: &Universe, stored: &[(u64, u64)], stored_hashes: &HashMap<u64, Hash>) -> Op {
+pub fn gen_op(
+    rng: &mut StdRng,
+    u: &Universe,
+    stored: &[(u64, u64)],
+    stored_hashes: &HashMap<u64, Hash>,
+    pruned: &[(u64, u64)],
+) -> Op {
     let g = &u.g;
     let len = u.len;
     let near = |rng: &mut StdRng| -> u64 {
@@ -275,6 +281,14 @@ pub fn gen_op(rng: &mut StdRng, u: &Universe, stored: &[(u64, u64)], stored_hash
                 }
             } else {
                 cands.push((rng.gen_range(1..=len), n));
+            }
+            // batches that cover a pruned island with a margin on either side (re-insertion after
+            // removal: the island must leave the pruned set)
+            for (a, b) in pruned {
+                let lo = a.saturating_sub(rng.gen_range(0..3)).max(1);
+                let hi = (*b + rng.gen_range(0..3)).min(len);
+                cands.push((lo, hi - lo + 1));
+                cands.push((lo, hi - lo + 1));
             }
             let start = if !cands.is_empty() && rng.gen_bool(0.75) {
                 let c = *cands.choose(rng).unwrap();
@@ -339,10 +353,32 @@ pub fn gen_op(rng: &mut StdRng, u: &Universe, stored: &[(u64, u64)], stored_hash
                         }
                     }
                 }
-                75..=80 => {
+                75..=77 => {
                     if !b.is_empty() {
                         let i = rng.gen_range(0..b.len());
                         unverify(&mut b[i]);
+                    }
+                }
+                78..=80 => {
+                    // headers that keep their advertised hash but do not link to one neighbour: the first
+                    // header points to another parent (lower link), or the last one announces another next
+                    // validator set (upper link).  Only the store's neighbour verification can notice.
+                    // (such headers do not validate, so -- like the duplicate-hash family -- they are only
+                    // used where the batch must be rejected: the neighbour in question is stored)
+                    if !b.is_empty() {
+                        let is_stored = |h: u64| stored.iter().any(|(a, e)| *a <= h && h <= *e);
+                        let lo = b[0].height();
+                        let hi = b[b.len() - 1].height();
+                        let lower = lo > 1 && is_stored(lo - 1);
+                        let upper = is_stored(hi + 1);
+                        if lower && (!upper || rng.gen_bool(0.5)) {
+                            if let Some(id) = b[0].header.last_block_id.as_mut() {
+                                id.hash = celestia_types::hash::Hash::Sha256(rng.r#gen());
+                            }
+                        } else if upper {
+                            let k = b.len() - 1;
+                            b[k].header.next_validators_hash = celestia_types::hash::Hash::Sha256(rng.r#gen());
+                        }
                     }
                 }
                 81..=86 => {
@@ -402,12 +438,13 @@ async fn history<S: Store>(
         let mut stored_hashes = HashMap::new();
         for (a, b) in &stored {
             for h in *a..=*b {
-                if let Ok(x) = s.get_by_height(h).await {
+                if let Ok(Ok(x)) = std::panic::AssertUnwindSafe(s.get_by_height(h)).catch_unwind().await {
                     stored_hashes.insert(h, x.hash());
                 }
             }
         }
-        let op = gen_op(&mut rng, &u, &stored, &stored_hashes);
+        let pruned_runs: Vec<(u64, u64)> = pruned.as_ref().iter().map(|r| (*r.start(), *r.end())).collect();
+        let op = gen_op(&mut rng, &u, &stored, &stored_hashes, &pruned_runs);
         let mut ev = match &op {
             Op::Insert(b) => {
                 let mut ids = vec![];
@@ -449,7 +486,21 @@ async fn history<S: Store>(
             _ => {}
         }
         ev["res"] = json!(r);
-        ev["st"] = project(s, &it, len).await;
+        // the projection queries run under catch too: a store left inconsistent by the operation may
+        // panic in a later query, which is an observation, not a harness failure
+        match std::panic::AssertUnwindSafe(project(s, &it, len)).catch_unwind().await {
+            Ok(st) => ev["st"] = st,
+            Err(e) => {
+                let why = e.downcast_ref::<String>().cloned().or_else(|| e.downcast_ref::<&str>().map(|s| s.to_string())).unwrap_or_default();
+                ev["res"] = json!(r);
+                ev["name"] = json!("panic");
+                ev["op"] = json!("query-after-op");
+                ev["why"] = json!(why);
+                tw.emit(ev);
+                sum.add("panics", 1);
+                break;
+            }
+        }
         let key = if r != R_OK { Some(format!("{backend}/{run}/{}", tw.events)) } else { None };
         for p in ["C19", "C20", "C21"] {
             let k = if p == "C20" { key.clone() } else { Some(format!("{backend}/{run}/{}", tw.events)) };
